@@ -126,6 +126,58 @@ def run(res, rng, tier, model_ok, replay=None):
                                        "entry points disagree on a corpus file"))
             else:
                 res.nontrivial.add(f)
+    if not replay:
+        # the option remove_scopes_with_empty_name through every entry point that takes options: files with
+        # empty-named scopes (nested, siblings, re-opened) must give the same hierarchy and signals everywhere
+        OPT_MODES = ["st", "mt", "hc", "hc:1", "hbc:16:0", "hbc:3:1", "hf:0", "hf:1", "hf:1:1"]
+        gdir = os.path.join(core.CACHE, "c14gen")
+        os.makedirs(gdir, exist_ok=True)
+        gfiles = []
+        for k in range(12 if tier == "quick" else 120):
+            names = [rng.choice(["", "", "top", "u0"]) for _ in range(rng.randint(1, 4))]
+            if k < 3:
+                names = [["", "top"], ["top", "", ""], ["", "", "u0"]][k]
+            txt = "$timescale 1ns $end\n"
+            code = 33
+            vars_ = 0
+            for n in names:
+                txt += "$scope module %s $end\n" % n
+                for _ in range(rng.randint(0, 2)):
+                    txt += "$var wire 1 %s v%d $end\n" % (chr(code), vars_)
+                    code += 1
+                    vars_ += 1
+            if vars_ == 0:
+                txt += "$var wire 1 %s v0 $end\n" % chr(code)
+                code += 1
+                vars_ = 1
+            for j in range(rng.randint(0, len(names))):
+                txt += "$upscope $end\n"
+                if rng.random() < 0.5:
+                    txt += "$scope module  $end\n$var wire 4 %s w%d $end\n$upscope $end\n" % (chr(code), j)
+                    code += 1
+            txt += "$upscope $end\n" * 0 + "$enddefinitions $end\n#0\n" + "".join("1%s\n" % chr(c) if c < 33 + vars_ else "" for c in range(33, code)) + "#5\n0!\n"
+            path = os.path.join(gdir, "flat%d.vcd" % k)
+            open(path, "w").write(txt)
+            gfiles.append(path)
+        flines = []
+        for f in gfiles:
+            for mode in OPT_MODES:
+                flines.append("file %s+f %s" % (mode, f))
+            flines.append("file st %s" % f)
+        outs = core.run_cases(core.WV_DEBUG, flines, "c14o", timeout=600)
+        step = len(OPT_MODES) + 1
+        for i, f in enumerate(gfiles):
+            group = outs[i * step:i * step + len(OPT_MODES)]
+            plain = outs[i * step + len(OPT_MODES)]
+            res.evaluations += len(group)
+            res.distribution["option-flatten"] = res.distribution.get("option-flatten", 0) + len(group)
+            digests = set(g.split(" bl=")[0] for g in group)
+            if len(digests) > 1 or (not group[0].startswith("digest=") and group[0] != "ERR"):
+                bad = [m + "+f=>" + g[:60] for m, g in zip(OPT_MODES, group)]
+                res.violations.append(("file <mode>+f " + f, "; ".join(bad)[:1500], "all entry points agree",
+                                       "entry points disagree on a file with empty-named scopes loaded with remove_scopes_with_empty_name"))
+            elif plain.split(" bl=")[0] not in digests:
+                res.nontrivial.add(f)          # the option made a difference for this file
     res.samples = [c["line"][:300] for c in cases[:2]]
 
 
